@@ -137,6 +137,7 @@ class OperationGroup(ContextMixin, ContentMixin):
         protocol = self.protocol or self.context.get_protocol()
         branch = self.branch or self.shell.blocks[f'head~{MAX_OPERATIONS_TTL - ttl}'].hash()
         source = self.key.public_key_hash()
+        signature_size = 96 if source.startswith('tz4') else 64
         constants = self.shell.head.context.constants()
 
         if counter is not None:
@@ -178,7 +179,7 @@ class OperationGroup(ContextMixin, ContentMixin):
                     x,
                     int(x['gas_limit']),
                     minimal_nanotez_per_gas_unit,
-                    extra_size=(32 + 64 if i == 0 else 0) + 3 * 3,
+                    extra_size=(32 + signature_size if i == 0 else 0) + 3 * 3,
                 )
             ),
         }
@@ -279,7 +280,8 @@ class OperationGroup(ContextMixin, ContentMixin):
             raise RpcError.from_errors(OperationResult.errors(opg_with_metadata))
 
         fee_acc = 0
-        extra_size = 32 + 64  # size of serialized branch and signature + safe reserve
+        signature_size = 96 if self.key.public_key_hash().startswith('tz4') else 64
+        extra_size = 32 + signature_size  # size of serialized branch and signature + safe reserve
         num_contents = len(opg_with_metadata['contents'])
         counter_offset = self.context.get_counter_offset()
         opg.contents.clear()
